@@ -132,7 +132,10 @@ def discharge_one(an, ob):
             l = an.eval_op(st, m["len"], "q")
             return Outcome(ob, False, None, "index in [%s,%s], len in [%s,%s]" % (st.itv(i) + st.itv(l)))
         if ob.kind == "DIV0":
-            a = an.eval_op(st, m["a"], "q")
+            dv = an.divisor_of(t)
+            if dv is None:
+                return Outcome(ob, False, None, "divisor not identified")
+            a = an.eval_op(st, dv, "q")
             it = st.itv(a)
             if it[0] > 0 or it[1] < 0:
                 return Outcome(ob, True, "INT", "divisor non-zero")
@@ -194,6 +197,35 @@ def discharge_one(an, ob):
             if it[0] >= 1:
                 return Outcome(ob, True, "INT", "size >= 1")
             return Outcome(ob, False, None, "size in [%s,%s]" % it)
+        if nm == "clamp" and t["arg_tys"] and t["arg_tys"][0] in ("f64", "f32"):
+            # float clamp(lo, hi): lo constant, hi = (x as f64) with integer x >= lo
+            lo = t["args"][1]
+            hi = t["args"][2]
+            if lo["k"] == "const" and "float" in lo["c"] and hi["k"] in ("copy", "move"):
+                try:
+                    c = float(lo["c"]["float"])
+                except ValueError:
+                    c = None
+                l = op_local(hi)
+                seen = set()
+                src_op = None
+                while l is not None and l not in seen:
+                    seen.add(l)
+                    ds = body.defs_of(l)
+                    if len(ds) != 1 or ds[0][1] == "term":
+                        break
+                    rv = ds[0][2]
+                    if rv["k"] == "use":
+                        l = op_local(rv["a"])
+                        continue
+                    if rv["k"] == "cast" and rv["ck"] == "IntToFloat":
+                        src_op = rv["a"]
+                    break
+                if c is not None and src_op is not None:
+                    iv = st.itv(an.eval_op(st, src_op, "q"))
+                    if iv[0] >= c:
+                        return Outcome(ob, True, "INT", "float clamp(%s, x as f64) with x >= %s" % (c, iv[0]))
+            return Outcome(ob, False, None, "float clamp bounds not provably ordered")
         if nm == "clamp":
             ta, tb = st.term(args[1]), st.term(args[2])
             if ta is not None and tb is not None and st.le(ta, tb):
